@@ -69,9 +69,9 @@ theorem lt_of_bitLen_lt {x k : Nat} (h : bitLen x < k + 1) : x < 2 ^ k := by
 
 /-! ### printing then parsing -/
 
-theorem parseLoop_interleave (sp : Nat) : ∀ (cs acc : List Char),
+theorem parseLoop_interleave (fx : Bool) (sp : Nat) : ∀ (cs acc : List Char),
     cs ≠ [] → (∀ c ∈ cs, isUpper c = true) → acc.length + cs.length ≤ 33 →
-    parseLoop acc (sp % 2 ^ acc.length) (interleave sp acc.length cs) =
+    parseLoopWith fx acc (sp % 2 ^ acc.length) (interleave sp acc.length cs) =
       .ok ((cs.reverse ++ acc).reverse, sp % 2 ^ (acc.length + cs.length - 1)) := by
   intro cs
   induction cs with
@@ -81,7 +81,7 @@ theorem parseLoop_interleave (sp : Nat) : ∀ (cs acc : List Char),
     have hc := hup c (by simp)
     cases cs with
     | nil =>
-      simp [interleave, parseLoop, hc]
+      simp [interleave, parseLoopWith, hc]
     | cons c' cs' =>
       have hrec := ih (c :: acc) (by simp) (fun x hx => hup x (by simp [hx]))
         (by simp at hlen ⊢; omega)
@@ -98,7 +98,7 @@ theorem parseLoop_interleave (sp : Nat) : ∀ (cs acc : List Char),
         have hk : ¬ (acc.length + 1 - 1 ≥ 32) := by simp at hlen; omega
         have hnb : (sp % 2 ^ acc.length).testBit (acc.length + 1 - 1) = false := by
           simp [Nat.testBit_mod_two_pow]
-        simp only [parseLoop, hc, if_true, isUpper_bullet, isSpacer_bullet, hlen', Bool.false_eq_true,
+        simp only [parseLoopWith, hc, if_true, isUpper_bullet, isSpacer_bullet, hlen', Bool.false_eq_true,
           if_false, hk, hnb]
         have hz : ¬ (acc.length + 1 = 0) := by omega
         simp only [hz, if_false]
@@ -106,7 +106,7 @@ theorem parseLoop_interleave (sp : Nat) : ∀ (cs acc : List Char),
         rw [e, mod_succ_of_testBit sp _ hbit]
         exact hrec
       · rename_i hbit
-        simp only [parseLoop, hc, if_true]
+        simp only [parseLoopWith, hc, if_true]
         rw [mod_succ_of_not_testBit sp _ (by simpa using hbit)]
         exact hrec
 
@@ -162,9 +162,9 @@ theorem normalize_cons_spacer {c : Char} (h : isSpacer c = true) (cs : List Char
   rcases h with h | h <;> subst h <;> simp [normalize] <;> decide
 
 /-- loop invariant for acceptance; `acc.length ≥ 1` -/
-theorem parseLoop_ok : ∀ (cs acc : List Char) (s0 : Nat) (letters : List Char) (sp : Nat),
+theorem parseLoop_ok (fx : Bool) : ∀ (cs acc : List Char) (s0 : Nat) (letters : List Char) (sp : Nat),
     acc ≠ [] → s0 < 2 ^ acc.length →
-    parseLoop acc s0 cs = .ok (letters, sp) →
+    parseLoopWith fx acc s0 cs = .ok (letters, sp) →
     letters = acc.reverse ++ cs.filter isUpper ∧ sp < 2 ^ letters.length ∧
     sp % 2 ^ (acc.length - 1) = s0 % 2 ^ (acc.length - 1) ∧
     (s0.testBit (acc.length - 1) = true → sp.testBit (acc.length - 1) = true) ∧
@@ -174,7 +174,7 @@ theorem parseLoop_ok : ∀ (cs acc : List Char) (s0 : Nat) (letters : List Char)
   induction cs with
   | nil =>
     intro acc s0 letters sp _ hs h
-    simp only [parseLoop, Outcome.ok.injEq, Prod.mk.injEq] at h
+    simp only [parseLoopWith, Outcome.ok.injEq, Prod.mk.injEq] at h
     obtain ⟨h1, h2⟩ := h
     subst h1; subst h2
     simp [looseFrom, normalize, hs]
@@ -184,7 +184,7 @@ theorem parseLoop_ok : ∀ (cs acc : List Char) (s0 : Nat) (letters : List Char)
       cases acc with
       | nil => exact absurd rfl hacc
       | cons _ _ => simp
-    simp only [parseLoop] at h
+    simp only [parseLoopWith] at h
     split at h
     · -- a letter
       rename_i hup
@@ -213,7 +213,7 @@ theorem parseLoop_ok : ∀ (cs acc : List Char) (s0 : Nat) (letters : List Char)
         have hz : ¬ (acc.length = 0) := by omega
         simp only [hz, if_false] at h
         split at h
-        · cases h
+        · split at h <;> cases h
         · split at h
           · cases h
           · rename_i hk hbit
@@ -243,14 +243,14 @@ theorem parseLoop_ok : ∀ (cs acc : List Char) (s0 : Nat) (letters : List Char)
       · cases h
 
 /-- the loop panics only on a spacer that follows 33 or more letters -/
-theorem parseLoop_ne_panic : ∀ (cs acc : List Char) (s0 : Nat) (p : String),
-    acc.length + (cs.filter isUpper).length ≤ 32 → parseLoop acc s0 cs ≠ .panic p := by
+theorem parseLoop_ne_panic (fx : Bool) : ∀ (cs acc : List Char) (s0 : Nat) (p : String),
+    acc.length + (cs.filter isUpper).length ≤ 32 → parseLoopWith fx acc s0 cs ≠ .panic p := by
   intro cs
   induction cs with
-  | nil => intro acc s0 p _; simp [parseLoop]
+  | nil => intro acc s0 p _; simp [parseLoopWith]
   | cons c cs ih =>
     intro acc s0 p hlen
-    simp only [parseLoop]
+    simp only [parseLoopWith]
     split
     · rename_i hup
       apply ih
@@ -268,15 +268,27 @@ theorem parseLoop_ne_panic : ∀ (cs acc : List Char) (s0 : Nat) (p : String),
             · exact ih _ _ _ hlen'
       · simp
 
-/-- length of what the loop returns -/
-theorem parseLoop_letters : ∀ (cs acc : List Char) (s0 : Nat) (letters : List Char) (sp : Nat),
-    parseLoop acc s0 cs = .ok (letters, sp) → letters = acc.reverse ++ cs.filter isUpper := by
+/-- the repaired loop never panics -/
+theorem parseLoop_fixed_ne_panic : ∀ (cs acc : List Char) (s0 : Nat) (p : String),
+    parseLoopWith true acc s0 cs ≠ .panic p := by
   intro cs
   induction cs with
-  | nil => intro acc s0 letters sp h; simp [parseLoop] at h; simp [h.1]
+  | nil => intro acc s0 p; simp [parseLoopWith]
+  | cons c cs ih =>
+    intro acc s0 p
+    simp only [parseLoopWith, ↓reduceIte]
+    repeat' split
+    all_goals first | exact ih _ _ _ | simp
+
+/-- length of what the loop returns -/
+theorem parseLoop_letters (fx : Bool) : ∀ (cs acc : List Char) (s0 : Nat) (letters : List Char) (sp : Nat),
+    parseLoopWith fx acc s0 cs = .ok (letters, sp) → letters = acc.reverse ++ cs.filter isUpper := by
+  intro cs
+  induction cs with
+  | nil => intro acc s0 letters sp h; simp [parseLoopWith] at h; simp [h.1]
   | cons c cs ih =>
     intro acc s0 letters sp h
-    simp only [parseLoop] at h
+    simp only [parseLoopWith] at h
     split at h
     · rename_i hup
       rw [ih _ _ _ _ h]; simp [hup]
@@ -285,7 +297,7 @@ theorem parseLoop_letters : ∀ (cs acc : List Char) (s0 : Nat) (letters : List 
       · split at h
         · cases h
         · split at h
-          · cases h
+          · split at h <;> cases h
           · split at h
             · cases h
             · rw [ih _ _ _ _ h]; simp [hup]
@@ -354,7 +366,7 @@ theorem looseTail_head_ne_bullet (sp i : Nat) (ls rest : List Char)
     rw [h1] at this
     exact absurd this (by decide)
 
-theorem parseLoop_complete (sp : Nat) : ∀ (cs acc : List Char) (s0 : Nat),
+theorem parseLoop_complete (fx : Bool) (sp : Nat) : ∀ (cs acc : List Char) (s0 : Nat),
     acc ≠ [] → s0 < 2 ^ acc.length →
     (∀ c ∈ cs, isUpper c = true ∨ isSpacer c = true) →
     acc.length + (cs.filter isUpper).length ≤ 32 →
@@ -362,7 +374,7 @@ theorem parseLoop_complete (sp : Nat) : ∀ (cs acc : List Char) (s0 : Nat),
     (s0.testBit (acc.length - 1) = true → sp.testBit (acc.length - 1) = true) →
     (if s0.testBit (acc.length - 1) then [bullet] else []) ++ normalize cs =
       looseFrom sp acc.length (cs.filter isUpper) →
-    parseLoop acc s0 cs = .ok (acc.reverse ++ cs.filter isUpper,
+    parseLoopWith fx acc s0 cs = .ok (acc.reverse ++ cs.filter isUpper,
       sp % 2 ^ (acc.length + (cs.filter isUpper).length)) := by
   intro cs
   induction cs with
@@ -377,7 +389,7 @@ theorem parseLoop_complete (sp : Nat) : ∀ (cs acc : List Char) (s0 : Nat),
       cases h1 : s0.testBit (acc.length - 1) <;> cases h2 : sp.testBit (acc.length - 1) <;>
         simp [h1, h2] at heq ⊢
     have := eq_mod_of_bits s0 sp acc.length hi hs hlow hb
-    simp [parseLoop, ← this]
+    simp [parseLoopWith, ← this]
   | cons c cs ih =>
     intro acc s0 hacc hs hchars hlen hlow himp heq
     have hi : 1 ≤ acc.length := by
@@ -411,7 +423,7 @@ theorem parseLoop_complete (sp : Nat) : ∀ (cs acc : List Char) (s0 : Nat),
           simp only [List.length_cons, Nat.add_sub_cancel, Nat.testBit_lt_two_pow hs,
             Bool.false_eq_true, if_false, List.nil_append]
           exact hb.2)
-      simp only [parseLoop, hup, if_true]
+      simp only [parseLoopWith, hup, if_true]
       rw [hrec]
       simp only [List.reverse_cons, List.append_assoc, List.singleton_append, List.length_cons]
       rw [show acc.length + 1 + (cs.filter isUpper).length =
@@ -449,7 +461,7 @@ theorem parseLoop_complete (sp : Nat) : ∀ (cs acc : List Char) (s0 : Nat),
           exact heq)
       have hz : ¬ (acc.length = 0) := by omega
       have hk : ¬ (acc.length - 1 ≥ 32) := by omega
-      simp only [parseLoop, hnup, Bool.false_eq_true, if_false, hsp, if_true, hz, hk, hb.1]
+      simp only [parseLoopWith, hnup, Bool.false_eq_true, if_false, hsp, if_true, hz, hk, hb.1]
       rw [or_two_pow hs1]
       exact hrec
 
@@ -464,12 +476,12 @@ theorem name_length_le (l : List Char) (h : bij l ≤ 2 ^ 128) : l.length ≤ 28
     omega
 
 /-- every string of the grammar whose name fits is accepted, with the rune and mask it denotes -/
-theorem parse_complete (s : List Char) (r sp : Nat)
+theorem parse_complete (fx : Bool) (s : List Char) (r sp : Nat)
     (hchars : ∀ c ∈ s, isUpper c = true ∨ isSpacer c = true)
     (hne : s.filter isUpper ≠ []) (hb : bij (s.filter isUpper) = r + 1) (hr : r < 2 ^ 128)
     (hsp : sp < 2 ^ ((s.filter isUpper).length - 1))
     (hnorm : normalize s = interleave sp 0 (s.filter isUpper)) :
-    parse s = .ok (r, sp) := by
+    parseWith fx s = .ok (r, sp) := by
   have hfilt : ∀ x ∈ s.filter isUpper, isUpper x = true := by
     intro x hx; exact (List.mem_filter.mp hx).2
   have hlen28 := name_length_le (s.filter isUpper) (by omega)
@@ -502,7 +514,7 @@ theorem parse_complete (s : List Char) (r sp : Nat)
       simpa using hsp
     rw [interleave_eq_loose sp _ c 0 hbit] at hnorm
     injection hnorm with _ hnorm
-    have hloop := parseLoop_complete sp cs [c] 0 (by simp) (by simp)
+    have hloop := parseLoop_complete fx sp cs [c] 0 (by simp) (by simp)
       (fun x hx => hchars x (by simp [hx])) (by simp only [List.length_cons] at hlen28 ⊢; simp; omega)
       (by simp [Nat.mod_one]) (by simp) (by simpa using hnorm)
     simp only [List.length_singleton, List.reverse_singleton, List.singleton_append] at hloop
@@ -515,21 +527,24 @@ theorem parse_complete (s : List Char) (r sp : Nat)
     rw [hsp'] at hloop
     have hparse : Rune.parse (c :: cs.filter isUpper) = .ok r :=
       (parse_ok_iff _ _).mpr (Or.inr ⟨by simp, hfilt, hb, hr⟩)
-    have h1 : ¬ ((c :: cs.filter isUpper).length ≥ 2 ^ 32) := by omega
+    have h1 : ¬ (fx = false ∧ (c :: cs.filter isUpper).length ≥ 2 ^ 32) := by
+      intro ⟨_, h⟩; omega
+    have hmin : min (c :: cs.filter isUpper).length (2 ^ 32 - 1) = (c :: cs.filter isUpper).length := by
+      omega
     have hbl := bitLen_le hsp
     have h2 : ¬ (bitLen sp ≥ (c :: cs.filter isUpper).length) := by
       simp only [List.length_cons, Nat.add_sub_cancel] at hbl ⊢; omega
-    simp only [parse, parseLoop, hup, if_true, hloop, h1, h2, if_false, hparse]
+    simp only [parseWith, parseLoopWith, hup, if_true, hloop, h1, hmin, h2, if_false, hparse]
 
 /-- acceptance implies denotation: the letters of `s` form a name with value `r + 1`, the mask
 fits below the last letter, and `s` (with `.` read as `•`) is exactly the printed form -/
-theorem parse_ok (s : List Char) (r sp : Nat) (h : parse s = .ok (r, sp)) :
+theorem parse_ok (fx : Bool) (s : List Char) (r sp : Nat) (h : parseWith fx s = .ok (r, sp)) :
     s.filter isUpper ≠ [] ∧
     bij (s.filter isUpper) = r + 1 ∧ r < 2 ^ 128 ∧
     sp < 2 ^ ((s.filter isUpper).length - 1) ∧
     normalize s = interleave sp 0 (s.filter isUpper) := by
-  unfold parse at h
-  cases hl : parseLoop [] 0 s with
+  unfold parseWith at h
+  cases hl : parseLoopWith fx [] 0 s with
   | panic q => rw [hl] at h; cases h
   | err e => rw [hl] at h; cases h
   | ok res =>
@@ -551,14 +566,14 @@ theorem parse_ok (s : List Char) (r sp : Nat) (h : parse s = .ok (r, sp)) :
           -- the string starts with a letter
           cases s with
           | nil =>
-            simp [parseLoop] at hl
+            simp [parseLoopWith] at hl
             obtain ⟨rfl, rfl⟩ := hl
             simp [bitLen] at hbl
           | cons c cs =>
-            simp only [parseLoop] at hl
+            simp only [parseLoopWith] at hl
             split at hl
             · rename_i hup
-              obtain ⟨h1, h2, _, _, h5⟩ := parseLoop_ok cs [c] 0 letters sp' (by simp)
+              obtain ⟨h1, h2, _, _, h5⟩ := parseLoop_ok fx cs [c] 0 letters sp' (by simp)
                 (by simp) hl
               simp only [List.length_singleton, Nat.sub_self, Nat.zero_testBit, Bool.false_eq_true,
                 if_false, List.nil_append, List.reverse_singleton, List.singleton_append] at h1 h5
@@ -566,13 +581,15 @@ theorem parse_ok (s : List Char) (r sp : Nat) (h : parse s = .ok (r, sp)) :
                 rw [h1]; simp [hup]
               rw [hfil]
               have hL : letters.length = (cs.filter isUpper).length + 1 := by rw [h1]; simp
-              have hsp : sp' < 2 ^ (letters.length - 1) := by
-                apply lt_of_bitLen_lt
-                have : letters.length - 1 + 1 = letters.length := by omega
-                rw [this]; omega
               rcases (Rune.parse_ok_iff letters v).mp hr with ⟨h0, _⟩ | ⟨hne, _, hb, hv⟩
               · rw [h0] at hL; simp at hL
-              · refine ⟨hne, hb, hv, hsp, ?_⟩
+              · have hl28 : letters.length ≤ 28 :=
+                  name_length_le letters (by unfold Rune.U128 at hv; omega)
+                have hsp : sp' < 2 ^ (letters.length - 1) := by
+                  apply lt_of_bitLen_lt
+                  have : letters.length - 1 + 1 = letters.length := by omega
+                  rw [this]; omega
+                refine ⟨hne, hb, hv, hsp, ?_⟩
                 rw [normalize_cons_upper hup, h5, h1]
                 have hbit : sp'.testBit (0 + (cs.filter isUpper).length) = false := by
                   apply Nat.testBit_lt_two_pow
